@@ -86,6 +86,10 @@ func classifyBroker(fd *ast.FuncDecl) string {
 	if fd.Type.Params != nil && len(fd.Type.Params.List) == 1 && len(fd.Type.Params.List[0].Names) == 1 {
 		clusterName = fd.Type.Params.List[0].Names[0].Name
 	}
+	recv := "r"
+	if fd.Recv != nil && len(fd.Recv.List) == 1 && len(fd.Recv.List[0].Names) == 1 {
+		recv = fd.Recv.List[0].Names[0].Name
+	}
 	ctrl := clusterName + ".Brokers[" + clusterName + ".Controller]"
 	if len(fd.Body.List) == 1 {
 		if rs, ok := fd.Body.List[0].(*ast.ReturnStmt); ok && len(rs.Results) == 2 {
@@ -93,7 +97,7 @@ func classifyBroker(fd *ast.FuncDecl) string {
 			if s == ctrl && exprString(rs.Results[1]) == "nil" {
 				return "controller"
 			}
-			if strings.HasPrefix(s, clusterName+".Brokers[r.") && exprString(rs.Results[1]) == "nil" {
+			if strings.HasPrefix(s, clusterName+".Brokers["+recv+".") && exprString(rs.Results[1]) == "nil" {
 				return "field"
 			}
 		}
@@ -109,11 +113,11 @@ func classifyBroker(fd *ast.FuncDecl) string {
 				usesAtoi = true
 			}
 		case *ast.RangeStmt:
-			if exprString(x.X) == "r.Topics" {
+			if exprString(x.X) == recv+".Topics" {
 				rangesTopics = true
 			}
 		case *ast.IndexExpr:
-			if exprString(x) == "r.Topics[0]" {
+			if exprString(x) == recv+".Topics[0]" {
 				indexZero = true
 			}
 			if exprString(x) == ctrl {
@@ -122,7 +126,17 @@ func classifyBroker(fd *ast.FuncDecl) string {
 		}
 		return true
 	})
+	hasLoop := false
+	ast.Inspect(fd.Body, func(n ast.Node) bool {
+		switch n.(type) {
+		case *ast.RangeStmt, *ast.ForStmt:
+			hasLoop = true
+		}
+		return true
+	})
 	switch {
+	case usesCtrl && !usesLeader && !usesAtoi && !hasLoop:
+		return "controller" // the same lookup through a local variable
 	case usesLeader && rangesTopics:
 		return "leaderAll"
 	case usesLeader && indexZero:
@@ -211,6 +225,35 @@ func switchCases(repo, file, recv, fn string) ([]string, error) {
 	if err != nil {
 		return nil, err
 	}
+	// local package names → canonical names by import path, so that a renamed import alias changes nothing
+	canon := map[string]string{}
+	for _, im := range f.Imports {
+		path, _ := strconv.Unquote(im.Path.Value)
+		base := path[strings.LastIndex(path, "/")+1:]
+		local := base
+		if im.Name != nil {
+			local = im.Name.Name
+		}
+		switch {
+		case strings.HasSuffix(path, "kafka-go/protocol"):
+			canon[local] = "protocol"
+		case strings.HasSuffix(path, "kafka-go/protocol/metadata"):
+			canon[local] = "meta"
+		}
+	}
+	rename := func(s string) string {
+		star := strings.HasPrefix(s, "*")
+		t := strings.TrimPrefix(s, "*")
+		if i := strings.Index(t, "."); i > 0 {
+			if c, ok := canon[t[:i]]; ok {
+				t = c + t[i:]
+			}
+		}
+		if star {
+			return "*" + t
+		}
+		return t
+	}
 	for _, d := range f.Decls {
 		fd, ok := d.(*ast.FuncDecl)
 		if !ok || fd.Body == nil || fd.Name.Name != fn || recvName(fd) != recv {
@@ -230,7 +273,7 @@ func switchCases(repo, file, recv, fn string) ([]string, error) {
 						out = append(out, "default")
 					}
 					for _, e := range cc.List {
-						out = append(out, exprString(e))
+						out = append(out, rename(exprString(e)))
 					}
 				}
 				return false
@@ -360,6 +403,352 @@ func discoverExits(repo string) ([]string, error) {
 		return out, nil
 	}
 	return nil, fmt.Errorf("transport.go: (*connPool).discover not found")
+}
+
+// selectVersionExpr translates (ApiKey).SelectVersion into a Lean if-chain.  Accepted subset: a prologue of
+// `x := k.MinVersion()` / `y := k.MaxVersion()` assignments (any local names), then either a tagless switch or an
+// if / else-if chain whose conditions are comparisons between those locals and the two parameters and whose
+// bodies are a single `return <local or parameter>`.  Identifiers are canonicalised (cmin, cmax, bmin, bmax) so
+// that renaming locals or parameters changes nothing.
+func selectVersionExpr(repo string) (string, error) {
+	fset := token.NewFileSet()
+	f, err := parser.ParseFile(fset, filepath.Join(repo, "protocol", "protocol.go"), nil, 0)
+	if err != nil {
+		return "", err
+	}
+	for _, d := range f.Decls {
+		fd, ok := d.(*ast.FuncDecl)
+		if !ok || fd.Body == nil || fd.Name.Name != "SelectVersion" || recvName(fd) != "ApiKey" {
+			continue
+		}
+		names := map[string]string{}
+		var params []string
+		for _, fl := range fd.Type.Params.List {
+			for _, n := range fl.Names {
+				params = append(params, n.Name)
+			}
+		}
+		if len(params) != 2 {
+			return "", fmt.Errorf("SelectVersion: expected two parameters")
+		}
+		names[params[0]], names[params[1]] = "bmin", "bmax"
+		recv := fd.Recv.List[0].Names[0].Name
+		term := func(e ast.Expr) (string, error) {
+			switch x := e.(type) {
+			case *ast.Ident:
+				if c, ok := names[x.Name]; ok {
+					return c, nil
+				}
+			case *ast.CallExpr:
+				switch exprString(x.Fun) {
+				case recv + ".MinVersion":
+					return "cmin", nil
+				case recv + ".MaxVersion":
+					return "cmax", nil
+				}
+			case *ast.ParenExpr:
+				return "", fmt.Errorf("parenthesised term")
+			}
+			return "", fmt.Errorf("SelectVersion: term %s outside the translated subset", exprString(e))
+		}
+		cond := func(e ast.Expr) (string, error) {
+			b, ok := e.(*ast.BinaryExpr)
+			if !ok {
+				return "", fmt.Errorf("SelectVersion: condition outside the translated subset")
+			}
+			op := map[token.Token]string{token.LSS: "<", token.GTR: ">", token.LEQ: "≤", token.GEQ: "≥", token.EQL: "=", token.NEQ: "≠"}[b.Op]
+			if op == "" {
+				return "", fmt.Errorf("SelectVersion: operator %s outside the translated subset", b.Op)
+			}
+			l, err := term(b.X)
+			if err != nil {
+				return "", err
+			}
+			r, err := term(b.Y)
+			if err != nil {
+				return "", err
+			}
+			return l + " " + op + " " + r, nil
+		}
+		ret := func(body []ast.Stmt) (string, error) {
+			if len(body) == 1 {
+				if rs, ok := body[0].(*ast.ReturnStmt); ok && len(rs.Results) == 1 {
+					return term(rs.Results[0])
+				}
+			}
+			return "", fmt.Errorf("SelectVersion: case body outside the translated subset")
+		}
+		var chain func(stmts []ast.Stmt) (string, error)
+		chain = func(stmts []ast.Stmt) (string, error) {
+			if len(stmts) == 0 {
+				return "", fmt.Errorf("SelectVersion: falls off the end")
+			}
+			switch x := stmts[0].(type) {
+			case *ast.AssignStmt:
+				if len(x.Lhs) == 1 && len(x.Rhs) == 1 {
+					if id, ok := x.Lhs[0].(*ast.Ident); ok {
+						c, err := term(x.Rhs[0])
+						if err != nil {
+							return "", err
+						}
+						names[id.Name] = c
+						return chain(stmts[1:])
+					}
+				}
+			case *ast.ReturnStmt:
+				return ret(stmts[:1])
+			case *ast.SwitchStmt:
+				if x.Tag != nil || x.Init != nil {
+					break
+				}
+				out, deflt := "", ""
+				for _, cl := range x.Body.List {
+					cc := cl.(*ast.CaseClause)
+					r, err := ret(cc.Body)
+					if err != nil {
+						return "", err
+					}
+					if cc.List == nil {
+						deflt = r
+						continue
+					}
+					if len(cc.List) != 1 {
+						return "", fmt.Errorf("SelectVersion: multi-expression case")
+					}
+					c, err := cond(cc.List[0])
+					if err != nil {
+						return "", err
+					}
+					out += "if " + c + " then " + r + " else "
+				}
+				if deflt == "" {
+					rest, err := chain(stmts[1:])
+					if err != nil {
+						return "", err
+					}
+					deflt = rest
+				}
+				return out + deflt, nil
+			case *ast.IfStmt:
+				c, err := cond(x.Cond)
+				if err != nil {
+					return "", err
+				}
+				r, err := ret(x.Body.List)
+				if err != nil {
+					return "", err
+				}
+				var rest string
+				switch e := x.Else.(type) {
+				case nil:
+					rest, err = chain(stmts[1:])
+				case *ast.BlockStmt:
+					rest, err = chain(append(append([]ast.Stmt{}, e.List...), stmts[1:]...))
+				case *ast.IfStmt:
+					rest, err = chain(append([]ast.Stmt{e}, stmts[1:]...))
+				}
+				if err != nil {
+					return "", err
+				}
+				return "if " + c + " then " + r + " else " + rest, nil
+			}
+			return "", fmt.Errorf("SelectVersion: statement outside the translated subset")
+		}
+		return chain(fd.Body.List)
+	}
+	return "", fmt.Errorf("protocol.go: (ApiKey).SelectVersion not found")
+}
+
+// updateCompare classifies how (*connPool).update decides that a broker known under the same id has changed:
+// "whole" for `<local> != <local>` (the two Broker structs compared as a whole), "fields:<A>,<B>" when only
+// fields are compared, "other" otherwise.
+func updateCompare(repo string) (string, error) {
+	fset := token.NewFileSet()
+	f, err := parser.ParseFile(fset, filepath.Join(repo, "transport.go"), nil, 0)
+	if err != nil {
+		return "", err
+	}
+	for _, d := range f.Decls {
+		fd, ok := d.(*ast.FuncDecl)
+		if !ok || fd.Body == nil || fd.Name.Name != "update" || recvName(fd) != "connPool" {
+			continue
+		}
+		res := ""
+		ast.Inspect(fd.Body, func(n ast.Node) bool {
+			rs, ok := n.(*ast.RangeStmt)
+			if !ok || !strings.HasSuffix(exprString(rs.X), ".Brokers") || rs.Value == nil {
+				return true
+			}
+			for _, st := range rs.Body.List {
+				is, ok := st.(*ast.IfStmt)
+				if !ok || is.Init == nil {
+					continue
+				}
+				if el, ok := is.Else.(*ast.IfStmt); ok {
+					var fields []string
+					whole, other := false, false
+					ast.Inspect(el.Cond, func(m ast.Node) bool {
+						b, ok := m.(*ast.BinaryExpr)
+						if !ok {
+							return true
+						}
+						switch b.Op {
+						case token.NEQ:
+							_, li := b.X.(*ast.Ident)
+							_, ri := b.Y.(*ast.Ident)
+							ls, lsel := b.X.(*ast.SelectorExpr)
+							rsel, rselok := b.Y.(*ast.SelectorExpr)
+							switch {
+							case li && ri:
+								whole = true
+							case lsel && rselok && ls.Sel.Name == rsel.Sel.Name:
+								fields = append(fields, ls.Sel.Name)
+							default:
+								other = true
+							}
+							return false
+						case token.LOR:
+							return true
+						default:
+							other = true
+							return false
+						}
+					})
+					switch {
+					case other:
+						res = "other"
+					case whole:
+						res = "whole"
+					case len(fields) > 0:
+						sort.Strings(fields)
+						res = "fields:" + strings.Join(fields, ",")
+					}
+				}
+			}
+			return true
+		})
+		if res == "" {
+			return "", fmt.Errorf("transport.go update: broker comparison not found")
+		}
+		return res, nil
+	}
+	return "", fmt.Errorf("transport.go: (*connPool).update not found")
+}
+
+// brokerConnGuard translates the condition under which sendRequest uses a per-broker connection
+// (`if <id> <op> <int> { … grabBrokerConn … }`) into a Lean proposition over `brokerID`.
+func brokerConnGuard(repo string) (string, error) {
+	fset := token.NewFileSet()
+	f, err := parser.ParseFile(fset, filepath.Join(repo, "transport.go"), nil, 0)
+	if err != nil {
+		return "", err
+	}
+	for _, d := range f.Decls {
+		fd, ok := d.(*ast.FuncDecl)
+		if !ok || fd.Body == nil || fd.Name.Name != "sendRequest" || recvName(fd) != "connPool" {
+			continue
+		}
+		out, bad := "", ""
+		ast.Inspect(fd.Body, func(n ast.Node) bool {
+			is, ok := n.(*ast.IfStmt)
+			if !ok {
+				return true
+			}
+			calls := false
+			ast.Inspect(is.Body, func(m ast.Node) bool {
+				if c, ok := m.(*ast.CallExpr); ok && strings.HasSuffix(exprString(c.Fun), ".grabBrokerConn") {
+					calls = true
+				}
+				return true
+			})
+			if !calls {
+				return true
+			}
+			b, ok := is.Cond.(*ast.BinaryExpr)
+			if !ok {
+				bad = "condition is not a comparison"
+				return false
+			}
+			op := map[token.Token]string{token.LSS: "<", token.GTR: ">", token.LEQ: "≤", token.GEQ: "≥", token.EQL: "=", token.NEQ: "≠"}[b.Op]
+			_, lid := b.X.(*ast.Ident)
+			v, vok := litValue(b.Y)
+			neg := false
+			if u, ok := b.Y.(*ast.UnaryExpr); ok && u.Op == token.SUB {
+				v, vok = litValue(u.X)
+				neg = true
+			}
+			if op == "" || !lid || !vok {
+				bad = "comparison outside the translated subset"
+				return false
+			}
+			lit := strconv.FormatUint(v, 10)
+			if neg {
+				lit = "-" + lit
+			}
+			out = "brokerID " + op + " " + lit
+			return false
+		})
+		if bad != "" || out == "" {
+			return "", fmt.Errorf("transport.go sendRequest: broker connection guard: %s", bad)
+		}
+		return out, nil
+	}
+	return "", fmt.Errorf("transport.go: (*connPool).sendRequest not found")
+}
+
+// searchPredicate translates the predicate of the sort.Search call in findMetadataTopic
+// (`func(i int) bool { return topics[i].Name >= topicName }`) and the final equality test into Lean over
+// `elem` (the i-th topic's name) and `target`.
+func searchPredicate(repo string) (pred, final string, err error) {
+	fset := token.NewFileSet()
+	f, perr := parser.ParseFile(fset, filepath.Join(repo, "transport.go"), nil, 0)
+	if perr != nil {
+		return "", "", perr
+	}
+	for _, d := range f.Decls {
+		fd, ok := d.(*ast.FuncDecl)
+		if !ok || fd.Body == nil || fd.Name.Name != "findMetadataTopic" {
+			continue
+		}
+		if len(fd.Type.Params.List) < 2 {
+			return "", "", fmt.Errorf("findMetadataTopic: unexpected signature")
+		}
+		target := fd.Type.Params.List[len(fd.Type.Params.List)-1].Names[0].Name
+		side := func(e ast.Expr) string {
+			if id, ok := e.(*ast.Ident); ok && id.Name == target {
+				return "target"
+			}
+			if sel, ok := e.(*ast.SelectorExpr); ok && sel.Sel.Name == "Name" {
+				if _, ok := sel.X.(*ast.IndexExpr); ok {
+					return "elem"
+				}
+			}
+			return ""
+		}
+		ops := map[token.Token]string{token.LSS: "<", token.GTR: ">", token.LEQ: "≤", token.GEQ: "≥", token.EQL: "=", token.NEQ: "≠"}
+		ast.Inspect(fd.Body, func(n ast.Node) bool {
+			switch x := n.(type) {
+			case *ast.FuncLit:
+				ast.Inspect(x.Body, func(m ast.Node) bool {
+					if b, ok := m.(*ast.BinaryExpr); ok && ops[b.Op] != "" && side(b.X) != "" && side(b.Y) != "" {
+						pred = side(b.X) + " " + ops[b.Op] + " " + side(b.Y)
+					}
+					return true
+				})
+				return false
+			case *ast.BinaryExpr:
+				if x.Op == token.EQL && side(x.X) != "" && side(x.Y) != "" {
+					final = side(x.X) + " = " + side(x.Y)
+				}
+			}
+			return true
+		})
+		if pred == "" || final == "" {
+			return "", "", fmt.Errorf("findMetadataTopic: search predicate / final test outside the translated subset")
+		}
+		return pred, final, nil
+	}
+	return "", "", fmt.Errorf("transport.go: findMetadataTopic not found")
 }
 
 func extractRouting(repo, root string) error {
@@ -564,6 +953,56 @@ func extractRouting(repo, root string) error {
 	fmt.Fprintf(&b, "def sendRequestCases : List SwitchCase := %s  -- %s\n\n", q(sendCases), strings.Join(sendCases, ", "))
 	b.WriteString("/-- case order of the type switch on the request in transport.go (*connPool).roundTrip -/\n")
 	fmt.Fprintf(&b, "def roundTripCases : List SwitchCase := %s  -- %s\n\n", q(rtCases), strings.Join(rtCases, ", "))
+	sv, err := selectVersionExpr(repo)
+	if err != nil {
+		return err
+	}
+	b.WriteString("/-- protocol/protocol.go (ApiKey).SelectVersion translated statement by statement: `cmin`/`cmax` are\n`k.MinVersion()`/`k.MaxVersion()`, `bmin`/`bmax` the two parameters (the broker's advertised range) -/\n")
+	fmt.Fprintf(&b, "def selectVersionSrc (cmin cmax bmin bmax : Int) : Int :=\n  %s\n\n", sv)
+	b.WriteString("/-- why a leader-routed request is refused -/\ninductive LeaderErr where\n  | noTopic | noPartition | noLeader | mismatch\n  deriving DecidableEq, Repr, Inhabited\n\n")
+	for _, a := range apis {
+		if a.broker != "leaderAll" {
+			continue
+		}
+		ll, err := leaderLoopOf(repo, a.pkg)
+		if err != nil {
+			return err
+		}
+		fmt.Fprintf(&b, "/-- protocol/%s (*Request).Broker, executed symbolically: initial `broker.ID`, the outer prologue (`some e` = the call\nends with e before the partition loop) and one iteration of the partition loop (`cur` = broker.ID so far, `part` = leader id of the\nlooked-up partition, `bro` = id of the looked-up broker) -/\n", a.pkg)
+		fmt.Fprintf(&b, "def leaderInit_%s : Int := %s\n", a.pkg, ll.init)
+		fmt.Fprintf(&b, "def leaderTopic_%s (topicFound : Bool) : Option LeaderErr :=\n  %s\n", a.pkg, ll.outer)
+		fmt.Fprintf(&b, "def leaderStep_%s (cur : Int) (part : Option Int) (bro : Int → Option Int) : Except LeaderErr Int :=\n  %s\n\n", a.pkg, ll.inner)
+	}
+	spred, sfinal, err := searchPredicate(repo)
+	if err != nil {
+		return err
+	}
+	b.WriteString("/-- transport.go findMetadataTopic: the predicate handed to sort.Search and the final test, over the i-th topic's\nname `elem` and the requested name `target` -/\n")
+	fmt.Fprintf(&b, "def searchPred (elem target : String) : Bool := decide (%s)\ndef searchHit (elem target : String) : Bool := decide (%s)\n\n", spred, sfinal)
+	cmp, err := updateCompare(repo)
+	if err != nil {
+		return err
+	}
+	b.WriteString("/-- how (*connPool).update decides that a broker known under the same id has changed -/\n")
+	b.WriteString("inductive BrokerCompare where\n  | whole | fields (fs : List String) | other\n  deriving DecidableEq, Repr, Inhabited\n\n")
+	switch {
+	case cmp == "whole":
+		b.WriteString("def updateCompare : BrokerCompare := .whole\n\n")
+	case strings.HasPrefix(cmp, "fields:"):
+		var fs []string
+		for _, x := range strings.Split(strings.TrimPrefix(cmp, "fields:"), ",") {
+			fs = append(fs, strconv.Quote(x))
+		}
+		fmt.Fprintf(&b, "def updateCompare : BrokerCompare := .fields [%s]\n\n", strings.Join(fs, ", "))
+	default:
+		b.WriteString("def updateCompare : BrokerCompare := .other\n\n")
+	}
+	guard, err := brokerConnGuard(repo)
+	if err != nil {
+		return err
+	}
+	b.WriteString("/-- transport.go sendRequest: the condition under which the request goes over a connection of the broker's own\ngroup (`grabBrokerConn`) rather than over the control connection -/\n")
+	fmt.Fprintf(&b, "def usesBrokerConn (brokerID : Int) : Bool := decide (%s)\n\n", guard)
 	exits, err := discoverExits(repo)
 	if err != nil {
 		return err
